@@ -1371,6 +1371,18 @@ def known_site_keys():
     for k in d:
         rel, fn, prim, _recv = k.split("|", 3)
         out.add("%s|%s|%s" % (rel, fn, prim))
+    # extract-method forwarders (a helper that hands its parameter on to insert_element_before): tx_c10 attributes
+    # them to their callers, which are the table's sites; at run time the call is seen inside the helper
+    try:
+        sys.path.insert(0, os.path.join(VERIF, "tx"))
+        import tx_c10
+        tx_c10.direct_sites()
+        out.update(tx_c10.FORWARDERS)
+    except Exception:  # noqa
+        pass
+    finally:
+        if sys.path and sys.path[0] == os.path.join(VERIF, "tx"):
+            sys.path.pop(0)
     return out
 
 
